@@ -389,6 +389,9 @@ PLAIN_DERS = ["d", "d1", "ratio", "total_A", "E0"]
 PLAIN_RXNS = ["r", "v1", "v_2", "flux", "R10"]
 #: names the exporter escapes / the importer renames (finding F-C08-5)
 ODD_NAMES = ["x.c", "y-1", "_u", "1s", "lambda", "a__46__b", "p q", "c(e)", "x+y", "w__", "ä"]
+#: names with a meaning of their own somewhere in the pipeline: module constants, table functions, module names
+RESERVED_NAMES = ["pi", "e", "inf", "nan", "sin", "log", "max", "abs", "power", "sqrt", "exp", "np", "math", "numpy", "E", "I",
+                  "ceil", "remainder", "true", "false", "avogadro", "piecewise"]
 COEFS = ["-2", "-1", "1", "2", "-1/2", "5/2", "3/2", "-3", "1/4"]
 
 
@@ -455,7 +458,7 @@ def _has_float(body) -> bool:
 
 def gen_model(rng, *, stratum: str):
     """stratum: exact | float | names | unsupported:<kind> | refclash | boolnum | gennames | samepath | sharedfn |
-    permargs | body | compartment | concname"""
+    permargs | body | compartment | concname | reserved"""
     floaty = stratum == "float"
     mk_fn.styles = ["p", "letters"] if stratum == "sharedfn" else (
         ["perm"] if stratum == "permargs" else ["p", "same", "letters", "perm"])
@@ -466,6 +469,12 @@ def gen_model(rng, *, stratum: str):
     ds = rng.sample(PLAIN_DERS, nd)
     rs = rng.sample(PLAIN_RXNS, nr)
     finding = None
+    if stratum == "reserved":
+        mk_fn.styles = ["p"]
+        res = rng.sample(RESERVED_NAMES, 3)
+        vs[0] = res[0]
+        if rng.random() < 0.7:
+            ps[0] = res[1]
     if stratum == "names":
         odd = rng.choice(ODD_NAMES)
         which = rng.choice(["v", "p", "d"] if ds else ["v", "p"])
@@ -639,6 +648,11 @@ def gen_model(rng, *, stratum: str):
             "floaty": floaty}
     if stratum == "samepath":
         case["prev"] = gen_model(rng, stratum="exact")["model"]
+    if stratum == "reserved":
+        # components called like things the exporter (or the importer) gives a meaning of their own: the module
+        # constants, functions of the tables, the module names.  The functions use p0, p1, … as parameters, so the
+        # Python source is unaffected; after the renaming the body holds the component's name.
+        pass
     if stratum == "concname":
         # a component called like the quantity the third-party importer adds for a species written as an amount
         # (`<species>_conc` = amount / compartment size): finding F-C08-17
@@ -1425,7 +1439,7 @@ def strata(ctx):
     n = ctx.n(1, 32)
     plan = [("exact", 130 * n), ("float", 80 * n), ("names", 30 * n), ("refclash", 16 * n), ("boolnum", 9 * n),
             ("gennames", 24 * n), ("samepath", 16 * n), ("sharedfn", 26 * n), ("permargs", 24 * n), ("body", 20 * n),
-            ("compartment", 24 * n), ("concname", 6 * n)]
+            ("compartment", 24 * n), ("concname", 6 * n), ("reserved", 24 * n)]
     plan += [(f"unsupported:{k}", (2 if k.startswith("near:") else 3) * n) for k, _ in UNSUPPORTED]
     return plan
 
